@@ -123,6 +123,12 @@ def expr_rv(body, rv, depth=0, stop=()):
             pv = _promoted_value(body, pl["l"])
             if pv is not None:
                 return ("ref", pv)
+            # reborrow `&*r` of a reference-typed temporary that is not a parameter: the reference value itself
+            lty = body["locals"][pl["l"]]["ty"]
+            if lty.startswith("&") and not (1 <= pl["l"] <= body["argc"]) and depth < MAXD:
+                inner = expr_local(body, pl["l"], depth + 1, stop)
+                if inner[0] not in ("var",):
+                    return inner
         tg = mir.place_targets(body, pl)
         if len(tg) == 1:
             (r, pth), = tg
